@@ -15,6 +15,7 @@ import (
 	"github.com/oasisprotocol/ed25519"
 	"github.com/oasisprotocol/ed25519/extra/x25519"
 	"github.com/oasisprotocol/ed25519/verifharness/hx"
+	"github.com/oasisprotocol/ed25519/verifharness/refmodel"
 )
 
 func init() { families["api"] = runAPI }
@@ -99,6 +100,7 @@ func runAPI() {
 
 	if prop == "C13" || prop == "" {
 		apiShapes(tr, r, thorough)
+		convShapes(tr, r)
 		batchShapes(tr, r, thorough)
 	}
 	if prop == "C14" || prop == "" {
@@ -119,6 +121,7 @@ func apiShapes(tr *hx.Trace, r *hx.Rng, thorough bool) {
 		reps = 4
 	}
 	goodPriv := ed25519.NewKeyFromSeed(r.Bytes(32))
+	directed := 0
 	for sc.Scan() {
 		var c apiCase
 		if err := json.Unmarshal(sc.Bytes(), &c); err != nil {
@@ -168,12 +171,30 @@ func apiShapes(tr *hx.Trace, r *hx.Rng, thorough bool) {
 				outcome, kind = call(func() error { _, err := ed25519.PrivateKey(priv.s).Sign(nil, msg.s, so); return err })
 				ev["unchanged"] = before == snapshot(bufs...)
 			case "Verify", "VerifyWithOptions":
-				// a valid triple when the lengths allow it, so that the deep paths run too
+				// directed contents when the lengths allow it, so that every stage of the pipeline runs:
+				// a valid triple; an undecodable R with an admissible S; an undecodable key; S >= L; a small-order R
 				msgC := r.Bytes(c.MsgLen)
 				var sigC, pubC []byte
-				if c.SigLen == 64 && c.PubLen == 32 && rep%2 == 0 {
+				if c.SigLen == 64 && c.PubLen == 32 {
 					if s, err := goodPriv.Sign(nil, msgC, &ed25519.Options{Hash: hashSel[c.Hash], Context: ctx}); err == nil {
-						sigC, pubC = s, goodPriv[32:]
+						sigC, pubC = append([]byte{}, s...), append([]byte{}, goodPriv[32:]...)
+						switch directed % 6 {
+						case 1:
+							u := hx.Undecodable(r)
+							copy(sigC[:32], u.Bytes[:])
+						case 2:
+							u := hx.Undecodable(r)
+							pubC = u.Bytes[:]
+						case 3:
+							sigC[63] |= 0x10
+							sigC[62] = 0xff
+						case 4:
+							so := refmodel.SmallOrderEncodings()
+							copy(sigC[:32], so[r.Intn(len(so))][:])
+						case 5:
+							sigC[5] ^= 1
+						}
+						directed++
 					}
 				}
 				pub := mkbuf(r, c.PubLen, pubC)
@@ -223,6 +244,42 @@ func apiShapes(tr *hx.Trace, r *hx.Rng, thorough bool) {
 	}
 }
 
+// convShapes: the key conversions and the array API must not modify their arguments either.
+func convShapes(tr *hx.Trace, r *hx.Rng) {
+	base := map[string]interface{}{"op": "api", "seedLen": 0, "privLen": 0, "pubLen": 32, "sigLen": 0, "scalarLen": 32, "pointLen": 32, "style": "options",
+		"hash": 0, "ctxlen": 0, "msglen": 0, "alias": "none", "lowOrder": false, "countMismatch": false, "entropyFail": false, "n": 0, "vecLen": 0, "cfg": *fCfg}
+	emit := func(fn, outcome, kind string, unchanged bool) {
+		ev := map[string]interface{}{"fn": fn, "outcome": outcome, "kind": kind, "unchanged": unchanged}
+		for k, v := range base {
+			ev[k] = v
+		}
+		tr.Emit(ev)
+	}
+	for i := 0; i < 24; i++ {
+		var content []byte
+		switch i % 3 {
+		case 0:
+			u := hx.Undecodable(r)
+			content = u.Bytes[:]
+		case 1:
+			u := hx.RandomDecodable(r)
+			content = u.Bytes[:]
+		default:
+			so := refmodel.SmallOrderEncodings()
+			content = so[r.Intn(len(so))][:]
+		}
+		pub := mkbuf(r, 32, content)
+		before := snapshot(pub.s)
+		outcome, kind := call(func() error { x25519.EdPublicKeyToX25519(pub.s); return nil })
+		emit("EdPublicKeyToX25519", outcome, kind, before == snapshot(pub.s))
+		var in, out [32]byte
+		copy(in[:], r.Bytes(32))
+		keep := in
+		outcome, kind = call(func() error { x25519.ScalarBaseMult(&out, &in); return nil })
+		emit("ScalarBaseMult", outcome, kind, keep == in)
+	}
+}
+
 func min(a, b int) int {
 	if a < b {
 		return a
@@ -254,10 +311,24 @@ func batchShapes(tr *hx.Trace, r *hx.Rng, thorough bool) {
 		var bufs [][]byte
 		for i := 0; i < n; i++ {
 			m := r.Bytes(r.Intn(70))
-			if r.Intn(3) == 0 { // well-formed entry
-				keys[i] = mkbuf(r, 32, good[32:]).s
+			if pick := r.Intn(4); pick <= 1 { // well-formed entry, or one that fails deep in the pipeline
+				sg := ed25519.Sign(good, m)
+				kb := append([]byte{}, good[32:]...)
+				if pick == 1 {
+					switch r.Intn(3) {
+					case 0:
+						u := hx.Undecodable(r)
+						copy(sg[:32], u.Bytes[:])
+					case 1:
+						u := hx.Undecodable(r)
+						kb = u.Bytes[:]
+					default:
+						sg[40] ^= 1
+					}
+				}
+				keys[i] = mkbuf(r, 32, kb).s
 				msgs[i] = mkbuf(r, len(m), m).s
-				sigs[i] = mkbuf(r, 64, ed25519.Sign(good, m)).s
+				sigs[i] = mkbuf(r, 64, sg).s
 			} else {
 				keys[i] = mkbuf(r, lens[r.Intn(len(lens))], nil).s
 				msgs[i] = mkbuf(r, lens[r.Intn(len(lens))], nil).s
@@ -351,7 +422,9 @@ func keyObjects(tr *hx.Trace, r *hx.Rng, thorough bool) {
 				continue
 			}
 			coherent := true
-			if err == nil {
+			if err == nil && (len(data) < 32 || len(priv) != 64 || len(pub) != 32) {
+				coherent = false // a key although the stream ended early, or malformed key objects
+			} else if err == nil {
 				want := ed25519.NewKeyFromSeed(data[:32])
 				coherent = len(priv) == 64 && len(pub) == 32 && bytes.Equal(priv, want) && bytes.Equal(priv[:32], data[:32]) && bytes.Equal(priv[32:], pub) &&
 					bytes.Equal(priv.Public().(ed25519.PublicKey), pub)
